@@ -274,22 +274,24 @@ pub fn cases(tier: &str) -> Vec<Case> {
         for u in &us {
             add("usleep", Some(*u as u64 * 1000), (*u, 0), false);
         }
-        for ns in [0u64, 1, 999_000, MS, 10 * MS - 1, 10 * MS, 10 * MS + 1, 15 * MS, 100 * MS, 1000 * MS, 2500 * MS] {
+        // thorough: a denser grid of durations between the boundary values
+        let extra_ms: Vec<u64> = if thorough { vec![2, 3, 5, 7, 19, 20, 21, 25, 37, 50, 99, 101, 250, 500, 999, 1001, 1500, 2000, 3000] } else { vec![] };
+        for ns in [0u64, 1, 999_000, MS, 10 * MS - 1, 10 * MS, 10 * MS + 1, 15 * MS, 100 * MS, 1000 * MS, 2500 * MS].into_iter().chain(extra_ms.iter().map(|m| m * MS)).chain(extra_ms.iter().map(|m| m * MS + 1)) {
             add("nanosleep", Some(ns), ((ns / 1_000_000_000) as i64, (ns % 1_000_000_000) as i64), false);
         }
         for raw in [(-1i64, 0i64), (0, -1), (0, 1_000_000_000), (1, 1_000_000_000)] {
             add("nanosleep", Some(0), raw, true);
         }
-        for ms in [0i64, 1, 9, 10, 11, 15, 100, 1000, 2500] {
+        for ms in [0i64, 1, 9, 10, 11, 15, 100, 1000, 2500].into_iter().chain(extra_ms.iter().map(|m| *m as i64)) {
             add("poll", Some(ms as u64 * MS), (ms, 0), false);
         }
-        for u in [0u64, 1, 999, 1000, 10_000, 15_000, 100_000, 1_000_000, 2_500_000] {
+        for u in [0u64, 1, 999, 1000, 10_000, 15_000, 100_000, 1_000_000, 2_500_000].into_iter().chain(extra_ms.iter().map(|m| m * 1000)).chain(extra_ms.iter().map(|m| m * 1000 + 1)) {
             add("select", Some(u * 1000), ((u / 1_000_000) as i64, (u % 1_000_000) as i64), false);
         }
         for raw in [(-1i64, 0i64), (0, -1)] {
             add("select", Some(0), raw, true);
         }
-        for ns in [0u64, 1, 999_000, MS, 10 * MS, 15 * MS, 100 * MS, 1000 * MS, 2500 * MS] {
+        for ns in [0u64, 1, 999_000, MS, 10 * MS, 15 * MS, 100 * MS, 1000 * MS, 2500 * MS].into_iter().chain(extra_ms.iter().map(|m| m * MS)) {
             add("pthread_cond_timedwait", Some(ns), (0, 0), false);
         }
         for raw in [(1_700_000_100i64, 1_000_000_000i64), (1_700_000_100, -1)] {
@@ -371,7 +373,7 @@ pub fn judge(c: &Case, res: &ChildResult, rep: &mut Report) {
 pub fn run(tier: &str, rep: &mut Report) {
     let cs = cases(tier);
     rep.bounds = json!({"calls":["sleep","usleep","nanosleep","poll","select","pthread_cond_timedwait"],"callers":["coroutine on a synchronous loop","plain thread"],
-        "timeouts":"0, smallest unit, 999us, 1ms, 10ms-1, 10ms, 10ms+1, 15ms, 100ms, 1s, 2.5s (per call's unit); infinite for poll/select",
+        "timeouts": if tier == "thorough" { "0, smallest unit, 999us, 1ms, 10ms-1, 10ms, 10ms+1, 15ms, 100ms, 1s, 2.5s (per call's unit) plus 2,3,5,7,19,20,21,25,37,50,99,101,250,500,999,1001,1500,2000,3000 ms (each also plus one smallest unit for nanosleep / select); infinite for poll/select" } else { "0, smallest unit, 999us, 1ms, 10ms-1, 10ms, 10ms+1, 15ms, 100ms, 1s, 2.5s (per call's unit); infinite for poll/select" },
         "stale_readiness": "coroutine callers, waits >= 100 ms: an earlier hooked read of the same coroutine timed out and its socket becomes readable a quarter / half way into the timed call",
         "interrupted_polls": "waits of 15 ms .. 1 s also run with the first 4 selector polls failing with EINTR",
         "slack_ns": SLACK, "horizon_ns": HORIZON, "cases": cs.len()});
